@@ -1139,11 +1139,15 @@ def P1_who_may_call(facts, rule, callees, allowed, floor=1, kinds=('call', 'ref'
 			detail={'callers': sorted(seen_callers)}))
 	return res
 
-def P2_construct_census(facts, rule, adt, variant, allowed, floor=1, note=''):
+def P2_construct_census(facts, rule, adt, variant, allowed, floor=1, note='', allow_derives=True):
 	try:
 		a = facts.adt(adt)
 	except AnchorMissing as e:
 		return [Result(rule, False, 'anchor:' + adt, 'anchor missing: %s' % e)]
+	if allow_derives:
+		# derived Clone and the type's own deserialiser rebuild existing values; they are not new constructions
+		allowed = list(allowed) + ['<%s as core::clone::Clone>::clone' % a] + [
+			'<%s as lightning::util::ser::%s>::read' % (a, t) for t in ('Readable', 'MaybeReadable', 'ReadableArgs', 'LengthReadable')]
 	if variant is not None and not any(v[0] == variant for v in facts.adts[a]):
 		return [Result(rule, False, 'anchor:%s::%s' % (adt, variant), 'anchor missing: variant %s::%s' % (adt, variant))]
 	allowed_n = set()
@@ -1242,16 +1246,17 @@ def P4_guarded(facts, rule, fu, acts, decisions, want_true=True, what='', key=No
 		return [Result(rule, False, 'dead:' + key, '%s: act for %s unreachable' % (fu.name, what), len(acts))]
 	return [Result(rule, True, 'ok:' + key, '%s: %d act site(s) guarded by %s (%d decision(s))' % (fu.name.rsplit('::', 1)[-1], len(acts), what, len(decisions)), len(acts) + len(decisions))]
 
-def P5_must_pass(facts, rule, fu, frm, to, through, what='', key=None):
-	"""no path from any block in `frm` to any block in `to` avoiding all blocks in `through`"""
+def P5_must_pass(facts, rule, fu, frm, to, through, what='', key=None, through_edges=()):
+	"""no path from any block in `frm` to any block in `to` avoiding all blocks in `through`
+	(and all edges in `through_edges`)"""
 	key = key or ('%s@%s' % (what, fu.name))
 	if not to:
 		return [Result(rule, False, 'anchor:to:' + key, 'anchor missing: no target site for %s in %s' % (what, fu.name))]
-	if not through:
+	if not through and not through_edges:
 		return [Result(rule, False, 'anchor:through:' + key, 'anchor missing: no pass-through site for %s in %s' % (what, fu.name))]
 	if not frm:
 		return [Result(rule, False, 'anchor:from:' + key, 'anchor missing: no start site for %s in %s' % (what, fu.name))]
-	p = fu.path(frm, to, removed_blocks=through)
+	p = fu.path(frm, to, removed_blocks=through, removed_edges=through_edges)
 	if p is not None:
 		return [Result(rule, False, 'bypass:' + key, '%s: %s can be bypassed (path through lines %s)' % (fu.name, what, fu.path_lines(p)[:30]),
 			len(to), where=facts.where(fu.name, fu.line_of(p[-1])), detail={'path_blocks': p, 'path_lines': fu.path_lines(p)})]
